@@ -194,6 +194,24 @@ def race_post_run(needle, what, chain=None):
     return post
 
 
+def node_on_fatal(prop, what):
+    """on_fatal factory for harnesses that run a node inside the test process: if the process dies
+    while a step announced with Progress(phase=...) is under way, the node did not survive that step."""
+    def handler(vc, spec, res, c, recs):
+        prog = [r for r in recs if r.get("t") == "progress"]
+        phase = (prog[-1].get("v") or {}).get("phase") if prog else None
+        if phase and phase != "done":
+            t = tail(c.logfile, 2500)
+            res.violations.append({"t": "violation", "prop": prop, "key": "node-died:" + str(phase),
+                                   "what": "%s (step %r): %s" % (what, phase, t[-600:]), "witness": prog[-1].get("v")})
+            res.evaluations += len(prog)
+            res.distinct.add("node-died")
+            res.distinct.add("node-died-2")
+        else:
+            res.broken.append({"why": "%s child %d exited rc=%s without summary: %s" % (c.part["test"], c.k, c.rc, tail(c.logfile, 1500))})
+    return handler
+
+
 def c07_on_fatal_other(vc, spec, res, c, recs):
     """The C07 harness running for another property (C10): a death in the replay phase is C07's business."""
     res.obs["c07-harness-child-died"] = res.obs.get("c07-harness-child-died", 0) + 1
@@ -453,6 +471,7 @@ register("C10", title="retried POST is not applied twice", pkg=".",
 
 
 register("C16", title="configuration updates", pkg=".",
+         on_fatal=node_on_fatal("C16", "the node died while applying an entry that changes the replicated configuration"),
          parts=[{"test": "^TestVerifC16$", "children": {"quick": 8, "thorough": 16}, "cases": {"quick": 6, "thorough": 400}}],
          timeout={"quick": 400, "thorough": 2400}, level="exploration",
          rule="in-process node; sequences of POST /config with generated TOML (valid, syntax errors, wrong types, bad durations/hex) x revision header "
